@@ -76,8 +76,9 @@ fn alphabet(c: &Cfg) -> Vec<VOp> {
         }
     }
     for v in &ids {
-        ops.push(VOp::Put(*v, 0));
-        ops.push(VOp::Put(*v, 1));
+        ops.push(VOp::Put(*v, 0)); // 8 bytes, inline
+        ops.push(VOp::Put(*v, 1)); // 9 bytes, heap
+        ops.push(VOp::Put(*v, 6)); // 17 bytes, heap: a longer datum over a shorter heap datum
         ops.push(VOp::Data(*v));
         ops.push(VOp::Kid(*v, c.labels[0]));
         ops.push(VOp::Kids(*v));
@@ -602,6 +603,42 @@ pub fn overflow_histories() -> Vec<(String, usize, usize, Vec<VOp>)> {
             ops.push(VOp::MergeJoin(0));
             ops.extend([VOp::Exports, VOp::Data(2), VOp::Data(1), VOp::Data(0), VOp::CloneSwap, VOp::Reload, VOp::NextId, VOp::Exports, VOp::MergeJoin(0), VOp::Exports]);
             out.push((format!("merge with join(), heap data placement {heap_on}, variant {variant}"), 3, 12, ops));
+        }
+    }
+    // every order of putting an empty, an inline, a short heap and a long heap datum on one vertex
+    // (ungrouped and grouped), reading in between: a buffer that is reused must have been resized
+    {
+        let sizes = [2u8, 0, 1, 6];
+        let mut perms: Vec<Vec<u8>> = vec![];
+        for a in 0..4 {
+            for b in 0..4 {
+                for c in 0..4 {
+                    for d in 0..4 {
+                        let p = vec![sizes[a], sizes[b], sizes[c], sizes[d]];
+                        let mut q = p.clone();
+                        q.sort_unstable();
+                        q.dedup();
+                        if q.len() == 4 {
+                            perms.push(p);
+                        }
+                    }
+                }
+            }
+        }
+        for (i, p) in perms.iter().enumerate() {
+            let mut ops = vec![VOp::Add(0), VOp::Add(1), VOp::Add(2)];
+            if i % 2 == 1 {
+                ops.push(VOp::Bind(0, 1, 0));
+            }
+            for (k, d) in p.iter().enumerate() {
+                ops.push(VOp::Put(0, *d));
+                if k % 2 == 1 {
+                    ops.push(VOp::Data(0));
+                }
+            }
+            ops.extend([VOp::Put(2, 1), VOp::Put(2, 6), VOp::Put(2, 1), VOp::Data(2), VOp::MergeTree(1, 2), VOp::MergeTree(1, 2)]);
+            tail(&mut ops);
+            out.push((format!("data sizes {p:?} put on one vertex in turn"), 2, 8, ops));
         }
     }
     // ids at and above the capacity in every position
